@@ -205,12 +205,20 @@ def priors():
     # characters: the writer must escape each of them, or the written line re-parses with shifted fields
     WS = [chr(c) for c in range(1, 0x3001) if chr(c).isspace()] + ['\x01', '\x7f', '\x9f']
     HOSTILE_WS = {f'w{c}s': ('ws%04x' % ord(c)).encode() for c in WS}
+    # plain neighbours that sort between a raw name ('w s') and its escaped spelling ('w\\x20s'): an ordering that
+    # mixes the two spellings is not a consistent order
+    HOSTILE_WS.update({'w1s': b'digit', 'w.s': b'dot', 'wZs': b'upper', 'w~s': b'tilde'})
 
     def hostile_ws(listed):
         items = [_F(p) for p in sorted(HOSTILE_WS)] if listed else []
         return Scenario(HOSTILE_WS, [MSpec(TOP, items)])
     yield 'hostile_ws_listed', lambda: hostile_ws(True)
     yield 'hostile_ws_unlisted', lambda: hostile_ws(False)
+
+    # names that need escaping next to plain names sorting between the raw and the escaped spelling
+    ESCN = {'a b': b'space', 'a.txt': b'dot', 'a1': b'digit', 'a~': b'tilde'}
+    yield 'escaped_neighbours_unlisted', lambda: Scenario(ESCN, [MSpec(TOP, [])])
+    yield 'escaped_neighbours_listed', lambda: Scenario(ESCN, [MSpec(TOP, [_F(p) for p in sorted(ESCN)])])
 
     def prunable_pairs():
         # two dot-directories and two IGNOREd directories that are neighbours in any sorted listing; the
